@@ -119,5 +119,15 @@ ConvLaw == \A v \in Scalars : IsNum(v) =>
 ArityLaw == (Done /\ cs.fam = "arity" /\ Len(cs.e.args) # Arity(cs.e.f)) => IsErr(res)
 ArrayLaw == (Done /\ cs.fam = "array") => res = ArrV([i \in 1..Len(cs.e.args) |-> Get(cs.doc, cs.e.args[i].p[1])])
 
-Export == Done => PrintT(ToJson([fam |-> cs.fam, e |-> cs.e, doc |-> cs.doc, consts |-> cs.consts, res |-> res]))
+\* a second row for the table forms: the same columns with the arguments rotated (x1 <- x2 <- x3 <- x1), so that
+\* one call site is evaluated twice in one statement with different arguments
+XN == <<"x1", "x2", "x3">>
+Rot(doc) == LET n == Cardinality(DOMAIN doc.f)
+            IN  IF n < 2 THEN doc ELSE ObjV([x \in DOMAIN doc.f |-> doc.f[XN[((CHOOSE i \in 1..n : XN[i] = x) % n) + 1]]])
+\* a call is a function of its arguments: the rotated row's value is the call on the rotated arguments, whatever
+\* the first row's was
+PerRow == Done => (Rot(cs.doc) = cs.doc => EvF(cs.e, Rot(cs.doc), cs.consts) = res)
+
+Export == Done => PrintT(ToJson([fam |-> cs.fam, e |-> cs.e, doc |-> cs.doc, consts |-> cs.consts, res |-> res,
+                                 doc2 |-> Rot(cs.doc), res2 |-> EvF(cs.e, Rot(cs.doc), cs.consts)]))
 =============================================================================
